@@ -156,6 +156,16 @@ func runC06(c *core.Ctx) {
 		n++
 		stageLifecycleRules(c, s, lifecycleOpts{})
 		exxProvenance(c, "C06", s)
+		// goroutines started once per input (Join's copiers) run concurrently: a variable they share makes what is
+		// delivered depend on the schedule (an element sent twice, another lost - no longer a prefix of anything)
+		for _, g := range s.Gos {
+			if g.InLoop {
+				if c.Rules["worker-local-state"] == nil {
+					c.Doc("worker-local-state", 1, "a goroutine started several times concurrently stores to no variable shared between its instances")
+				}
+				workerLocalState(c, g.Name, s, g)
+			}
+		}
 	}
 	catchImplBlocking(c, "pipe")
 	stdErrDrains(c)
@@ -393,6 +403,59 @@ func stageLifecycleRules(c *core.Ctx, s *Stage, o lifecycleOpts) {
 		}
 		owner := closers[0]
 		c.Ok("single-closer", label, owner.fn.Pos(), "closed by "+owner.name)
+		// the closer is started on every way out of the constructor that hands the channel out: a return ahead of the
+		// `go` statement (a shortcut for "nothing to do") leaves the caller with a channel nobody will ever close
+		if returned[k] && owner.g != nil {
+			top := owner.g
+			for top.Parent != nil {
+				top = top.Parent
+			}
+			if top.Spawn != nil && top.Spawn.Instr != nil && top.Spawn.Instr.Parent() == s.Fn {
+				if c.Rules["closer-started"] == nil {
+					c.Doc("closer-started", 1, "every return of the constructor is preceded by the go statement of the goroutine that closes the returned channel")
+				}
+				sp := top.Spawn.Instr
+				bad := token.NoPos
+				for _, b := range s.Fn.Blocks {
+					ret, isRet := b.Instrs[len(b.Instrs)-1].(*ssa.Return)
+					if !isRet {
+						continue
+					}
+					if b == sp.Block() || sp.Block().Dominates(b) {
+						continue
+					}
+					// a return that hands out other channels only (a shortcut returning a channel it closed itself)
+					mayBeThis := false
+					for _, r := range ret.Results {
+						for {
+							if ct, isCT := r.(*ssa.ChangeType); isCT {
+								r = ct.X
+								continue
+							}
+							break
+						}
+						if mc, isMC := r.(*ssa.MakeChan); isMC && ch.Src != ssa.Value(mc) {
+							continue
+						}
+						if _, isCh := r.Type().Underlying().(*types.Chan); isCh {
+							mayBeThis = true
+						}
+					}
+					if !mayBeThis {
+						continue
+					}
+					bad = ret.Pos()
+					if !bad.IsValid() {
+						bad = s.Fn.Pos()
+					}
+				}
+				if bad.IsValid() {
+					c.Fail("closer-started", label, bad, "the constructor returns on a path that has not started %s, the goroutine that closes this channel: the caller would wait for a close that never comes", top.Name)
+				} else {
+					c.Ok("closer-started", label, sp.Pos(), "the go statement of "+top.Name+" dominates every return")
+				}
+			}
+		}
 		// exactly once on every exit, after the owner's last send, never on a looping segment
 		okClose := true
 		// close-then-drain: the owner closes the channel once on its way into a loop (after wg.Wait - the ordering of
